@@ -8,6 +8,7 @@ import itertools as itt
 
 DENSITIES = (0.2, 0.35, 0.5, 0.7)
 HOSTILE = ("isolated", "bionly", "bow", "bichain", "multidistrict", "onedistrict", "names_unsorted", "none")
+# "deepcollider" is requested explicitly by the separation workloads
 
 
 def names(n, rng=None, unsorted=False):
@@ -67,11 +68,27 @@ def random_admg(rng, n, hostile=None, p_di=None, p_bi=None):
         for a, b in zip(sh, sh[1:]):
             if [a, b] not in bi and [b, a] not in bi:
                 bi.append([a, b])
+    hint = None
+    if hostile == "deepcollider" and n >= 5:
+        # a *-> m <-* b with a directed chain m -> d1 -> d2 below the collider; only d2 conditioned
+        a, b, m, d1, d2 = (order[i] for i in sorted(rng.sample(range(n), 5)))
+        keep = {a, b, m, d1, d2}
+        di = [e for e in di if not (set(e) <= keep)]
+        bi = [e for e in bi if not (set(e) <= keep)]
+        for src in (a, b):
+            (bi if rng.random() < 0.4 else di).append([src, m])
+        di += [[m, d1], [d1, d2]]
+        if rng.random() < 0.3:
+            bi.append([m, d1])
+        hint = {"a": a, "b": b, "C": [d2]}
     ins = nm[:]
     rng.shuffle(ins)
     rng.shuffle(di)
     rng.shuffle(bi)
-    return {"nodes": ins, "di": di, "bi": bi, "hostile": hostile}
+    out = {"nodes": ins, "di": di, "bi": bi, "hostile": hostile}
+    if hint:
+        out["hint"] = hint
+    return out
 
 
 def _n_districts(nm, bi):
